@@ -156,6 +156,9 @@ def gen_world(rng, wid):
         models.setdefault("%s.%s" % (ln, m), "good")
     chains.append({"paths": ["conn"], "models": [ln + ".Pipe", ln + ".Network"]})
     chains.append({"paths": ["conn"], "models": [ln + ".Pipe", ln + ".Long"]})
+    # valid files that define no class at all (comments only / empty): they parse, so they are no errors
+    files["conn/Notes.mo"] = ["good", "// notes on the connector library; no class in here\n"]
+    files["libA/Blank.mo"] = ["good", ""]
     cp = name("C")
     for part, text in CONNFLAT.items():
         files["conn/%s%s.mo" % (cp, part)] = ["good", text.format(p=cp)]
